@@ -35,7 +35,7 @@ pub struct PoolEntry {
     pub fq: &'static str,
 }
 
-pub const POOL: [PoolEntry; 12] = [
+pub const POOL: [PoolEntry; 18] = [
     PoolEntry { name: "counter ca", kind: RType::Counter, fq: "ca" },
     PoolEntry { name: "counter cb{x=1}", kind: RType::Counter, fq: "cb" },
     PoolEntry { name: "gauge g", kind: RType::Gauge, fq: "g" },
@@ -49,9 +49,22 @@ pub const POOL: [PoolEntry; 12] = [
     PoolEntry { name: "counter mix{k=1}", kind: RType::Counter, fq: "mix" },
     PoolEntry { name: "gauge mix{k=2}", kind: RType::Gauge, fq: "mix" },
     PoolEntry { name: "histogram mix{k=3}", kind: RType::Histogram, fq: "mix" },
+    // a vector without children: registered, contributes no family
+    PoolEntry { name: "int counter vec empty[l] without children", kind: RType::Counter, fq: "empty" },
+    // a name that already starts with the registry prefix `p_`, and of another kind than `ca`
+    PoolEntry { name: "gauge p_ca", kind: RType::Gauge, fq: "p_ca" },
+    // two vectors under one name (different constant label), one of them without children
+    PoolEntry { name: "counter vec sv{k=1}[l] child x", kind: RType::Counter, fq: "sv" },
+    PoolEntry { name: "counter vec sv{k=2}[l] without children", kind: RType::Counter, fq: "sv" },
+    // different names and kinds, identical help text and label names
+    PoolEntry { name: "counter eqa (help 'same help')", kind: RType::Counter, fq: "eqa" },
+    PoolEntry { name: "gauge eqb (help 'same help')", kind: RType::Gauge, fq: "eqb" },
 ];
 
-pub const C07_POOL: usize = 9;
+/// Pool members used by C07 (everything except the same-name/different-kind collectors).
+pub fn c07_members() -> Vec<usize> {
+    (0..POOL.len()).filter(|i| !(9..=11).contains(i)).collect()
+}
 
 /// Fresh real collector `i` (with samples) plus the families it contributes (reference form).
 pub fn make(i: usize) -> (Box<dyn Collector>, Vec<RFamily>) {
@@ -121,6 +134,30 @@ pub fn make(i: usize) -> (Box<dyn Collector>, Vec<RFamily>) {
             let h = Histogram::with_opts(HistogramOpts::new("mix", "help mix").buckets(vec![1.0]).const_label("k", "3")).unwrap();
             h.observe(4.0);
             (Box::new(h), one("mix", "help mix", RType::Histogram, RMetric { labels: lbl(&[("k", "3")]), histogram: hist(4.0, 0), ..Default::default() }))
+        }
+        13 => {
+            let g = Gauge::new("p_ca", "help p_ca").unwrap();
+            g.set(9.0);
+            (Box::new(g), one("p_ca", "help p_ca", RType::Gauge, RMetric { gauge: Some(9.0), ..Default::default() }))
+        }
+        14 => {
+            let v = CounterVec::new(Opts::new("sv", "help sv").const_label("k", "1"), &["l"]).unwrap();
+            v.with_label_values(&["x"]).inc_by(4.0);
+            (Box::new(v), vec![RFamily { name: "sv".into(), help: "help sv".into(), typ: RType::Counter, metrics: vec![RMetric { labels: lbl(&[("k", "1"), ("l", "x")]), counter: Some(4.0), ..Default::default() }] }])
+        }
+        15 => {
+            let v = CounterVec::new(Opts::new("sv", "help sv").const_label("k", "2"), &["l"]).unwrap();
+            (Box::new(v), vec![])
+        }
+        16 => {
+            let c = Counter::new("eqa", "same help").unwrap();
+            c.inc_by(3.0);
+            (Box::new(c), one("eqa", "same help", RType::Counter, RMetric { counter: Some(3.0), ..Default::default() }))
+        }
+        17 => {
+            let g = Gauge::new("eqb", "same help").unwrap();
+            g.set(7.5);
+            (Box::new(g), one("eqb", "same help", RType::Gauge, RMetric { gauge: Some(7.5), ..Default::default() }))
         }
         _ => {
             // an IntCounterVec without children: registered but contributes no family
